@@ -291,16 +291,220 @@ Definition run (root : hash) (cb : bool) (db0 : store) (ops : list op) : sync :=
 
 End Model.
 
+(* ---- the caller: trieSync and runTrieSync (you/downloader/triesync.go) ------
+   trieSync keeps s.tasks (hash -> set of peers already tried), hands batches of
+   tasks to peers (fillTasks), and feeds every blob of a response through
+   processNodeData (process); unanswered tasks go back to s.tasks.  runTrieSync
+   keeps one active request per peer and a FIFO of finished requests (answered,
+   timed out, peer dropped, overwritten) that the loop processes one by one.
+   Abstractions: peers are numbers; maps are association lists with unique
+   keys; which eligible tasks a Go map iteration picks in fillTasks is taken
+   from the observation and checked to be legal; on an aborting error of
+   process the bookkeeping state is left as it is (the loop returns).
+   [blen] = len(blob), [ideal] = youdb.IdealBatchSize. *)
+Definition peer := N.
+Definition tasks := list (hash * list peer).
+
+Fixpoint task_get (t : tasks) (h : hash) : option (list peer) :=
+  match t with
+  | [] => None
+  | (k, a) :: r => if N.eqb k h then Some a else task_get r h
+  end.
+Fixpoint task_del (t : tasks) (h : hash) : tasks :=
+  match t with
+  | [] => []
+  | (k, a) :: r => if N.eqb k h then task_del r h else (k, a) :: task_del r h
+  end.
+Definition task_set (t : tasks) (h : hash) (a : list peer) : tasks := (h, a) :: task_del t h.
+
+Fixpoint remove_peer (p : peer) (l : list peer) : list peer :=
+  match l with
+  | [] => []
+  | x :: r => if N.eqb x p then remove_peer p r else x :: remove_peer p r
+  end.
+Definition tried (p : peer) (a : list peer) : bool := existsb (N.eqb p) a.
+
+Fixpoint nodupb (l : list hash) : bool :=
+  match l with
+  | [] => true
+  | x :: r => negb (existsb (N.eqb x) r) && nodupb r
+  end.
+
+Record treq := mkTreq { q_peer : peer; q_tasks : tasks }.      (* trieReq: peer, tasks (items = keys) *)
+Record caller := mkCaller {
+  c_sched : sync;      (* s.sched *)
+  c_tasks : tasks;     (* s.tasks *)
+  c_num : N;           (* numUncommitted *)
+  c_bytes : N          (* bytesUncommitted *)
+}.
+
+(* insertion sort of the hashes Missing returned by their queue priority,
+   highest first (the order in which the priority queue must have popped them) *)
+Definition prio_of (q : list (hash * N)) (h : hash) : N :=
+  match find (fun e => N.eqb (fst e) h) q with Some e => snd e | None => 0 end.
+Fixpoint insert_prio (q : list (hash * N)) (h : hash) (l : list hash) : list hash :=
+  match l with
+  | [] => [h]
+  | x :: r => if N.leb (prio_of q x) (prio_of q h) then h :: l else x :: insert_prio q h r
+  end.
+Definition sort_prio (q : list (hash * N)) (l : list hash) : list hash :=
+  fold_right (insert_prio q) [] l.
+
+Inductive cerr := CNone | CInvalid | CAllPeers.
+
+Record fin := mkFin { f_req : treq; f_resp : option (list blob); f_dropped : bool }.
+Record mach := mkMach {
+  m_c : caller;
+  m_active : list (peer * treq);     (* runTrieSync: active *)
+  m_finished : list fin;             (* runTrieSync: finished *)
+  m_err : cerr                       (* error the loop returned *)
+}.
+
+Inductive event :=
+| EAssign (p : peer) (n : N) (got items : list hash)   (* assignTasks for one idle peer *)
+| EPack (p : peer) (blobs : list blob)                 (* a node-data packet arrives from p *)
+| EDrop (p : peer)                                      (* p disconnects *)
+| ETimeout (p : peer)                                   (* p's current request times out *)
+| ENext (npeers : N)                                    (* the loop takes the next finished request *)
+| ECommit                                               (* the loop's commit(false) *)
+| ECancel.                                              (* the loop ends: deferred commit(true) *)
+
+Fixpoint active_get (a : list (peer * treq)) (p : peer) : option treq :=
+  match a with
+  | [] => None
+  | (k, r) :: t => if N.eqb k p then Some r else active_get t p
+  end.
+Fixpoint active_del (a : list (peer * treq)) (p : peer) : list (peer * treq) :=
+  match a with
+  | [] => []
+  | (k, r) :: t => if N.eqb k p then active_del t p else (k, r) :: active_del t p
+  end.
+
+Section Caller.
+Variable H : blob -> hash.
+Variable dec : blob -> option nodeview.
+Variable blen : blob -> N.
+Variable ideal : N.
+
+(* trieSync.fillTasks *)
+Definition fill_tasks (c : caller) (p : peer) (n : N) (got items : list hash) : option (caller * treq) :=
+  let nt := N.of_nat (length (c_tasks c)) in
+  match (if N.ltb nt n then
+           match missing (c_sched c) (n - nt) (sort_prio (s_queue (c_sched c)) got) with
+           | Some s' => Some (s', fold_left (fun t h => task_set t h []) got (c_tasks c))
+           | None => None
+           end
+         else match got with [] => Some (c_sched c, c_tasks c) | _ => None end) with
+  | None => None
+  | Some (s', t1) =>
+    let elig := filter (fun e => negb (tried p (snd e))) t1 in
+    let want := N.min n (N.of_nat (length elig)) in
+    if nodupb items && N.eqb (N.of_nat (length items)) want
+       && forallb (fun h => match task_get t1 h with Some a => negb (tried p a) | None => false end) items
+    then
+      let qt := map (fun h => (h, p :: match task_get t1 h with Some a => a | None => [] end)) items in
+      Some (mkCaller s' (fold_left task_del items t1) (c_num c) (c_bytes c), mkTreq p qt)
+    else None
+  end.
+
+(* the blob loop of trieSync.process; the last component = aborted with
+   "invalid trie node" *)
+Fixpoint proc_blobs (c : caller) (qt : tasks) (blobs : list blob) (succ : N) : caller * tasks * N * bool :=
+  match blobs with
+  | [] => (c, qt, succ, false)
+  | b :: r =>
+    let '(s', (_, _, e)) := deliver H dec (c_sched c) b in
+    match e with
+    | ENone => proc_blobs (mkCaller s' (c_tasks c) (c_num c + 1) (c_bytes c + blen b)) (task_del qt (H b)) r (succ + 1)
+    | ENotRequested | EAlready => proc_blobs (mkCaller s' (c_tasks c) (c_num c) (c_bytes c)) (task_del qt (H b)) r succ
+    | _ => (mkCaller s' (c_tasks c) (c_num c) (c_bytes c), qt, succ, true)
+    end
+  end.
+
+(* trieSync.process; resp = None: req.response == nil (timeout / drop) *)
+Definition cprocess (c : caller) (req : treq) (resp : option (list blob)) (npeers : N) : caller * (N * cerr) :=
+  let blobs := match resp with Some l => l | None => [] end in
+  let '(c1, qt, succ, bad) := proc_blobs c (q_tasks req) blobs 0 in
+  if bad then (c1, (succ, CInvalid))
+  else
+    let retry := match resp with Some [] => false | _ => true end in
+    let qt' := map (fun e => (fst e, if retry then remove_peer (q_peer req) (snd e) else snd e)) qt in
+    if existsb (fun e => N.leb npeers (N.of_nat (length (snd e)))) qt' then (c1, (succ, CAllPeers))
+    else (mkCaller (c_sched c1) (fold_left (fun t e => task_set t (fst e) (snd e)) qt' (c_tasks c1))
+                   (c_num c1) (c_bytes c1), (succ, CNone)).
+
+(* trieSync.commit (through a database batch: all or nothing) *)
+Definition ccommit (c : caller) (force : bool) : caller :=
+  if negb force && N.ltb (c_bytes c) ideal then c
+  else
+    let '(s', (w, _)) := commit_db (c_sched c) None in
+    if N.eqb w 0 then mkCaller s' (c_tasks c) (c_num c) (c_bytes c)
+    else mkCaller s' (c_tasks c) 0 0.
+
+Definition finish_req (m : mach) (p : peer) (resp : option (list blob)) (dropped : bool) : mach :=
+  match active_get (m_active m) p with
+  | None => m
+  | Some req => mkMach (m_c m) (active_del (m_active m) p) (m_finished m ++ [mkFin req resp dropped]) (m_err m)
+  end.
+
+Definition running (m : mach) : bool :=
+  match m_err m with CNone => negb (N.eqb (pending (c_sched (m_c m))) 0) | _ => false end.
+
+(* one event of runTrieSync + trieSync.loop *)
+Definition mstep (m : mach) (e : event) : mach :=
+  match e with
+  | EAssign p n got items =>
+    if running m then
+      match fill_tasks (m_c m) p n got items with
+      | None => m
+      | Some (c', req) =>
+        match q_tasks req with
+        | [] => mkMach c' (m_active m) (m_finished m) (m_err m)
+        | _ =>
+          (* trackTrieReq: a busy peer's old request is finished as dropped *)
+          let m1 := finish_req (mkMach c' (m_active m) (m_finished m) (m_err m)) p None true in
+          mkMach (m_c m1) ((p, req) :: m_active m1) (m_finished m1) (m_err m1)
+        end
+      end
+    else m
+  | EPack p blobs => finish_req m p (Some blobs) false     (* no active request: dropped *)
+  | EDrop p => finish_req m p None true
+  | ETimeout p => finish_req m p None false
+  | ENext npeers =>
+    if running m then
+      match m_finished m with
+      | [] => m
+      | f :: rest =>
+        let '(c', (_, e)) := cprocess (m_c m) (f_req f) (f_resp f) npeers in
+        mkMach c' (m_active m) rest e
+      end
+    else m
+  | ECommit => if running m then mkMach (ccommit (m_c m) false) (m_active m) (m_finished m) (m_err m) else m
+  | ECancel => mkMach (ccommit (m_c m) true) (m_active m) (m_finished m) (m_err m)
+  end.
+
+Definition new_mach (root : hash) (cb : bool) (db : store) : mach :=
+  mkMach (mkCaller (new_sync dec root cb db) [] 0 0) [] [] CNone.
+
+Definition mrun (root : hash) (cb : bool) (db0 : store) (evs : list event) : mach :=
+  fold_left mstep evs (new_mach root cb db0).
+
+End Caller.
+
 (* ---- correspondence runner ---------------------------------------------- *)
 
 Definition perr_code (e : perr) : N :=
   match e with ENone => 0 | ENotRequested => 1 | EAlready => 2 | EDecode => 3 | ECallback => 4 end.
+Definition cerr_code (e : cerr) : N :=
+  match e with CNone => 0 | CInvalid => 1 | CAllPeers => 2 end.
 
 Record dreq := mkDreq {
   d_hash : hash; d_raw : bool; d_hasdata : bool; d_cb : bool;
   d_depth : N; d_deps : Z; d_parents : list hash }.
 
-(* observed operations: inputs + what the implementation returned *)
+(* observed operations: inputs + what the implementation returned.
+   X.. drive trie.Sync directly, Y.. drive it through trieSync (fillTasks,
+   process, commit) with the dispatcher of runTrieSync in between. *)
 Inductive oop :=
 | XMissing (max : N) (got : list hash)
 | XProcess (items : list (hash * blob)) (committed : bool) (idx : N) (err : N)
@@ -308,11 +512,20 @@ Inductive oop :=
 | XCommit (lim : option N) (written : N) (failed : bool)
 | XRestart
 | XPending (n : N)
-| XDump (reqs : list dreq) (memorder : list hash) (db : store).
+| XDump (reqs : list dreq) (memorder : list hash) (db : store)
+| YAssign (p : peer) (n : N) (got items : list hash)
+| YPack (p : peer) (blobs : list blob)
+| YDrop (p : peer)
+| YTimeout (p : peer)
+| YNext (npeers : N) (ran : bool) (succ : N) (err : N)     (* ran = a finished request was processed *)
+| YCommit (force : bool)
+| YTasks (t : tasks) (num bytes : N).
 
 Record case := mkCase {
   c_hash : list (blob * hash);         (* Keccak of every blob of the case *)
   c_dec : list (blob * nodeview);      (* decodeNode of every decodable blob *)
+  c_len : list (blob * N);             (* len of every blob *)
+  c_ideal : N;                         (* youdb.IdealBatchSize *)
   c_root : hash;
   c_cb : bool;                         (* state.NewStateSync (true) or trie.NewSync(.., nil) *)
   c_db0 : store;                       (* destination database before the sync *)
@@ -348,33 +561,69 @@ Definition store_ok (model obs : store) : bool :=
   forallb (fun e => match get model (fst e) with Some b => N.eqb b (snd e) | None => false end) obs
   && forallb (fun e => has obs (fst e)) model.
 
-Definition ostep (H : blob -> hash) (dec : blob -> option nodeview) (root : hash) (cb : bool)
-           (s : sync) (o : oop) : option sync :=
+Definition set_eqb (a b : list N) : bool :=
+  Nat.eqb (length a) (length b) && forallb (fun x => existsb (N.eqb x) b) a.
+Definition tasks_ok (model obs : tasks) : bool :=
+  Nat.eqb (length model) (length obs)
+  && forallb (fun e => match task_get model (fst e) with Some a => set_eqb a (snd e) | None => false end) obs.
+
+Definition with_sched (m : mach) (s : sync) : mach :=
+  mkMach (mkCaller s (c_tasks (m_c m)) (c_num (m_c m)) (c_bytes (m_c m))) (m_active m) (m_finished m) (m_err m).
+
+Definition ostep (H : blob -> hash) (dec : blob -> option nodeview) (blen : blob -> N) (ideal : N)
+           (root : hash) (cb : bool) (m : mach) (o : oop) : option mach :=
+  let s := c_sched (m_c m) in
+  let ev := fun e => Some (mstep H dec blen ideal m e) in
   match o with
-  | XMissing max got => missing s max got
+  | XMissing max got => option_map (with_sched m) (missing s max got)
   | XProcess items c i e =>
     let '(s', (c', i', e')) := process dec s items in
-    if Bool.eqb c c' && N.eqb i i' && N.eqb e (perr_code e') then Some s' else None
+    if Bool.eqb c c' && N.eqb i i' && N.eqb e (perr_code e') then Some (with_sched m s') else None
   | XDeliver b h c e =>
     let '(s', (c', _, e')) := deliver H dec s b in
-    if N.eqb h (H b) && Bool.eqb c c' && N.eqb e (perr_code e') then Some s' else None
+    if N.eqb h (H b) && Bool.eqb c c' && N.eqb e (perr_code e') then Some (with_sched m s') else None
   | XCommit lim w f =>
     let '(s', (w', f')) := commit_db s lim in
-    if N.eqb w w' && Bool.eqb f f' then Some s' else None
-  | XRestart => Some (new_sync dec root cb (s_db s))
-  | XPending n => if N.eqb n (pending s) then Some s else None
+    if N.eqb w w' && Bool.eqb f f' then Some (with_sched m s') else None
+  | XRestart => Some (new_mach dec root cb (s_db s))
+  | XPending n => if N.eqb n (pending s) then Some m else None
   | XDump reqs order db =>
     if Nat.eqb (length reqs) (length (s_reqs s)) && forallb (dreq_ok (s_reqs s)) reqs
        && list_eqb N.eqb order (map fst (s_mem s)) && store_ok (s_db s) db
-    then Some s else None
+    then Some m else None
+  | YAssign p n got items =>
+    (* the harness only assigns while the loop runs; an illegal observation is a mismatch *)
+    if running m then
+      match fill_tasks (m_c m) p n got items with
+      | Some _ => ev (EAssign p n got items)
+      | None => None
+      end
+    else None
+  | YPack p blobs => ev (EPack p blobs)
+  | YDrop p => ev (EDrop p)
+  | YTimeout p => ev (ETimeout p)
+  | YNext npeers ran succ err =>
+    if running m then
+      match m_finished m with
+      | [] => if ran then None else Some m
+      | f :: _ =>
+        let '(_, (succ', e')) := cprocess H dec blen (m_c m) (f_req f) (f_resp f) npeers in
+        if ran && N.eqb succ succ' && N.eqb err (cerr_code e') then ev (ENext npeers) else None
+      end
+    else if ran then None else Some m
+  | YCommit force =>
+    Some (mkMach (ccommit ideal (m_c m) force) (m_active m) (m_finished m) (m_err m))
+  | YTasks t num bytes =>
+    if tasks_ok (c_tasks (m_c m)) t && N.eqb num (c_num (m_c m)) && N.eqb bytes (c_bytes (m_c m))
+    then Some m else None
   end.
 
-Fixpoint orun (H : blob -> hash) (dec : blob -> option nodeview) (root : hash) (cb : bool)
-         (s : sync) (ops : list oop) : bool :=
+Fixpoint orun (H : blob -> hash) (dec : blob -> option nodeview) (blen : blob -> N) (ideal : N)
+         (root : hash) (cb : bool) (m : mach) (ops : list oop) : bool :=
   match ops with
   | [] => true
-  | o :: r => match ostep H dec root cb s o with
-              | Some s' => orun H dec root cb s' r
+  | o :: r => match ostep H dec blen ideal root cb m o with
+              | Some m' => orun H dec blen ideal root cb m' r
               | None => false
               end
   end.
@@ -382,7 +631,8 @@ Fixpoint orun (H : blob -> hash) (dec : blob -> option nodeview) (root : hash) (
 Definition case_ok (c : case) : bool :=
   let H := fun b => match tbl_get (c_hash c) b with Some h => h | None => zero_hash end in
   let dec := tbl_get (c_dec c) in
-  orun H dec (c_root c) (c_cb c) (new_sync dec (c_root c) (c_cb c) (c_db0 c)) (c_ops c).
+  let blen := fun b => match tbl_get (c_len c) b with Some n => n | None => 0 end in
+  orun H dec blen (c_ideal c) (c_root c) (c_cb c) (new_mach dec (c_root c) (c_cb c) (c_db0 c)) (c_ops c).
 
 Fixpoint mismatches_from (i : N) (l : list case) : list N :=
   match l with
